@@ -16,8 +16,8 @@ TRUSTED = [
 KNOWN = {
     "K1": "V1 formatter (cue/format node.go+printer.go, CUE_EXPERIMENT=formatv2=0) prints a unary operator and a unary operand with no blank even when the pair lexes as another token: `< -1` -> `<-1` (ARROW), `! =~\"a\"` -> `!=~\"a\"`, `< =~`, `> =~`, `< ==`, `> ==`, `! ==`; output does not parse (mayCombine has no case for LSS/GTR/NOT; UnaryExpr prints the operator with nooverride)",
     "K2": "V2 formatter (internal/pretty, default) prints an INT literal and a selector period with no blank: `1 .a` -> `1.a`; output does not scan/parse (selectorExpr glues the period; V1 handles it in mayCombine)",
-    "K3": "V2 formatter on ASTs WITHOUT ParenExpr nodes (format.Node on programmatic trees): a unary expression in operand position of a selector/index/call is not parenthesised (`(-x).a` printed `-x.a`): wrapForPrecedence only wraps binary expressions. Parsed sources are unaffected (explicit ParenExpr).",
-    "K4": "V2 formatter on ASTs WITHOUT ParenExpr nodes: a right-nested chain of the same operator `a | (b | c)` / `a & (b & c)` is flattened to `a | b | c` (flattenBinaryChain walks both operands); the re-parsed tree is left-nested. Parsed sources are unaffected.",
+    "K25": "V2 formatter on ASTs WITHOUT ParenExpr nodes (format.Node on programmatic trees): a unary expression in operand position of a selector/index/call is not parenthesised (`(-x).a` printed `-x.a`): wrapForPrecedence only wraps binary expressions. Parsed sources are unaffected (explicit ParenExpr).",
+    "K26": "V2 formatter on ASTs WITHOUT ParenExpr nodes: a right-nested chain of the same operator `a | (b | c)` / `a & (b & c)` is flattened to `a | b | c` (flattenBinaryChain walks both operands); the re-parsed tree is left-nested. Parsed sources are unaffected.",
 }
 
 
@@ -152,7 +152,7 @@ def expr_level(ctx, exe, harness, quick, stats):
                     bump(tag + "hazard pair separated by the implementation (finding not reproduced)")
                 elif same == "0":
                     if v == 1 and cls != "-":
-                        for ch, kid in (("u", "K3"), ("c", "K4")):
+                        for ch, kid in (("u", "K25"), ("c", "K26")):
                             if ch in cls:
                                 bump(tag + "known " + kid)
                                 ctx.known_finding(kid + ": " + KNOWN[kid])
@@ -205,15 +205,151 @@ def expr_level(ctx, exe, harness, quick, stats):
     stats["expr_violations"] = stats.get("expr_violations", 0) + nviol
 
 
+FILE_KNOWN = {
+    "K1": KNOWN["K1"],
+    "K2": KNOWN["K2"],
+    "K3": "V1 -s: not idempotent (whitespace/commas only): nodes rewritten by Simplify (collapsed single-field structs, unquoted labels, re-created `...`) carry no position on the first pass, the layout settles on the second pass",
+    "K4": "V2: `x: f(\\n\\ta, \"\")` - the first pass moves `)` to its own line, the second pass adds the trailing comma (not idempotent, tree unchanged)",
+    "K5": "V1: an own-line comment after the last comprehension of a struct is printed between clause and body; with try/else the output does not parse",
+    "K6": "V1 and V2: `if c { // c1` - the line comment after the comprehension's opening brace moves (V1: after the first field, V2: after `}`)",
+    "K7": "-s (both): `#dev: int, \"#dev\": int` - the quoted label is unquoted and becomes the definition `#dev` (label simplifier's scope map is also fed by identifier labels)",
+    "K8": "-s (both): `[string]: _ @attr` (or with an alias) is rewritten to `...`: isEllipsis ignores Attrs/Alias, they are dropped",
+    "K9": "V2: `c: d:\\n\\t// cmt\\n\\tc: 1` - the comment between colon and chained field is lost",
+    "K10": "-s (both): `x: \"x\": \"x\": x` - an outer label is unquoted and captures the reference (markReferences invalidates only the innermost scope)",
+    "K11": "V1: an own-line comment at the end of a struct that is a list element moves after `},`",
+    "K12": "V1: `((x))` collapse uses the inner parenthesis' position: `[1\\n((2))]` is not idempotent, `for x in (\\n(y)) {}` does not reparse, a list inside an interpolation gains a trailing comma on the second pass",
+    "K13": "V1: `import (\"a\", \"b\")` on one line - the comma is dropped, the output does not parse",
+    "K14": "-s (both): `[name=_]: \"name\": T` - the unquoted label clashes with the alias, the output does not parse",
+    "K15": "V1 -s: `{[string]: _, foo: 3}` -> `{, foo: 3 ...}`",
+    "K16": "V1: CRLF source with a multi-line string holding two or more interpolations: a stray newline inside `\\( )`, never a fixed point (interpolationNormalize works on line numbers)",
+    "K17": "V1: a field with three or more attributes plus a line comment: the comment is printed after the 2nd attribute, the rest become separate declarations",
+    "K18": "V1 and V2: a line comment between two comprehension clauses moves after the body",
+    "K19": "V1: `a: _ @x, a: b: _ @y` - braces added plus alignment; settles on the second pass",
+    "K20": "V1 and V2: a line comment after a call argument that is a selector or index expression: V1 output does not parse or changes the argument count, V2 moves it inside the selector",
+    "K21": "V1 and V2: a comment before or after a list ellipsis `...` moves",
+    "K22": "V2: a comment inside a single-line interpolation swallows code (`args=2` -> `args=1`)",
+    "K23": "-s (both): `\"string\": 1, x: [string]: int` - `string:` captures the reference inside the pattern label (the simplifier ignores references inside labels)",
+    "K24": "-s (both): `// hdr\\n\\n\"true\": 1` - the blank line is lost and the header becomes a doc comment",
+    "W": "V1 and V2: comments written directly after an opening bracket, before a closing bracket, after an operator, after a colon or after a comma are moved to another node/position (witnesses corpus/C08/W-*.cue; these comment positions are excluded from the seed-dependent mutator)",
+}
+
+
 def file_level(ctx, quick, stats):
-    if not os.path.exists(os.path.join(vlib.VERIF, "checks", "_c08_file.py")):
-        stats["file_level"] = "file-level part not present"
-        return
+    """Direct exploration of format.Source on the embedded sources of the repository, their
+    mutants and generated programs (harness/c08f): formats, is idempotent, keeps the
+    position-free structural dump."""
     harness, hsecs = vlib.build_harness("c08f")
     stats["file_harness_build_s"] = hsecs
-    # filled in below once the file-level harness contract is final
-    from checks import _c08_file
-    _c08_file.run(ctx, harness, quick, stats, KNOWN)
+    work = os.path.join(ctx.work, "file")
+    wdir = os.path.join(ctx.work, "wit")
+    os.makedirs(work, exist_ok=True)
+    os.makedirs(wdir, exist_ok=True)
+    corpus_dir = os.path.join(vlib.VERIF, "corpus", "C08")
+    runs = []
+    if ctx.replay:
+        rp = json.load(open(ctx.replay))
+        if "file_case" not in rp:
+            return
+        cf = os.path.join(work, "replay_cases.txt")
+        with open(cf, "w") as f:
+            f.write(rp["file_case"] + "\n")
+        vlib.run([harness, "--repo", vlib.REPO, "--replay-cases", cf, "--out", work], timeout=3000)
+        runs.append(("replay", work))
+    else:
+        # regression witnesses first (seed independent)
+        vlib.run([harness, "--mode", "witness", "--repo", vlib.REPO, "--dir", corpus_dir, "--out", wdir], timeout=3000)
+        runs.append(("witness", wdir))
+        if quick:
+            sizes = ["--stride", "8", "--nmut-det", "300", "--ngen-det", "120", "--nmut", "300", "--ngen", "120"]
+        else:
+            sizes = ["--stride", "1", "--nmut-det", "8000", "--ngen-det", "3000", "--nmut", "6000", "--ngen", "2500"]
+        vlib.run([harness, "--mode", "all", "--repo", vlib.REPO, "--seed", str(ctx.seed), "--out", work] + sizes,
+                 timeout=3000)
+        runs.append(("all", work))
+    expected = {}
+    for line in open(os.path.join(corpus_dir, "expected.txt")):
+        w = line.split()
+        if len(w) >= 4 and not line.startswith("#"):
+            expected[(w[0], w[1], w[2])] = " ".join(w[3:])
+    outcome = stats.setdefault("file_outcomes", {})
+    nviol = 0
+    total = 0
+    nontrivial = 0
+
+    def bump(k):
+        outcome[k] = outcome.get(k, 0) + 1
+
+    def violation(what, c, i):
+        nonlocal nviol
+        nviol += 1
+        if nviol <= 5:
+            ctx.violation({"kind": "file-level", "what": what, "file_case": c, "verdict": i,
+                           "replay": "bin/check C08 --replay <this file>   (or: build/harness-c08f --repo /repo --replay-cases <file with file_case> --show 1)"})
+
+    for mode, d in runs:
+        cases = open(os.path.join(d, "cases.txt")).read().split("\n")[:-1]
+        impl = open(os.path.join(d, "impl.txt")).read().split("\n")[:-1]
+        if len(cases) != len(impl):
+            raise vlib.CheckFailure("c08f line count mismatch cases=%d impl=%d" % (len(cases), len(impl)))
+        total += len(cases)
+        for c, i in zip(cases, impl):
+            w = i.split()
+            cw = c.split(" ", 4)
+            tag = "%s %s/%s " % (mode if mode != "all" else cw[0], cw[2] if len(cw) > 2 else "-", cw[3] if len(cw) > 3 else "-")
+            if mode == "witness":
+                name = cw[1][4:] if cw[1].startswith("wit:") else cw[1]
+                exp = expected.get((name, cw[2], cw[3]))
+                got = " ".join(w[:2]) if w[0] == "known" else w[0]
+                if w[:2] == ["known", "W"]:
+                    # the harness itself compared with the recorded verdict of an unclassified witness
+                    bump("witness as recorded: still fails")
+                    ctx.known_finding("W: " + FILE_KNOWN["W"])
+                elif exp is None:
+                    bump("witness without recorded verdict")
+                elif exp == got:
+                    bump("witness as recorded: " + ("ok" if got == "ok" else "still fails"))
+                    if w[0] == "known":
+                        ctx.known_finding(w[1] + ": " + FILE_KNOWN.get(w[1], i))
+                elif got == "ok":
+                    bump("witness no longer fails (finding not reproduced): " + exp)
+                else:
+                    bump("V:witness fails differently")
+                    violation("regression witness %s: recorded verdict `%s`, now `%s`" % (name, exp, i), c, i)
+                continue
+            if w[0] == "ok":
+                bump(tag + ("malformed rejected" if len(w) > 1 else "ok"))
+                if len(c) > 200 or cw[0] == "FILE":
+                    nontrivial += 1
+            elif w[0] == "known":
+                bump("known " + w[1] + " (" + (cw[2] if len(cw) > 2 else "") + ")")
+                ctx.known_finding(w[1] + ": " + FILE_KNOWN.get(w[1], i))
+            else:
+                bump("V:" + w[0] + " " + tag)
+                violation({"fmt-error": "format.Source fails on a source that parses",
+                           "not-idempotent": "formatting the formatted output changes it",
+                           "tree-changed": "the formatted output parses to a different tree / comment placement",
+                           "reparse-error": "the formatted output does not parse",
+                           "panic": "the formatter panics",
+                           "accepted-malformed": "format.Source accepts a source the parser rejects"}.get(w[0], w[0]), c, i)
+        sj = os.path.join(d, "stats.json")
+        if mode == "all" and os.path.exists(sj):
+            st = json.load(open(sj))
+            for k in ("corpus", "stride", "bytes_processed", "verdicts", "known_classes",
+                      "ok_cases_with_comments_reattached_to_other_node_or_position", "source_size_distribution",
+                      "node_kinds_seen", "comment_positions_seen", "malformed_stream", "mutation_classes", "generator"):
+                if k in st:
+                    stats["file_" + k] = st[k]
+    stats["file_evaluations"] = total
+    stats["file_distinct_nontrivial"] = nontrivial
+    stats["file_violations"] = nviol
+    stats["file_rule"] = ("seed-independent: regression witnesses corpus/C08/{K,W}*.cue; every 8th (quick) / every (thorough) "
+                          "deduplicated parseable .cue source of the repository (files and txtar sections), each under formatter "
+                          "v1 and v2, with and without Simplify; a FIXED-seed stream of mutants of corpus sources (classes W whitespace, "
+                          "C comments at end of line / own line / doc / file start,end, P parentheses, M commas, T token edits) and of "
+                          "generated programs with comments and randomised layout. seed-dependent (VERIF_SEED): the same mutators "
+                          "without class C on corpus sources whose comments were removed, and generated programs without comments. "
+                          "Mutants that no longer parse are the malformed stream (must be rejected). non-trivial: corpus files and "
+                          "sources longer than 200 bytes")
 
 
 def run(ctx):
@@ -251,6 +387,6 @@ def run(ctx):
 MANIFEST = {
     "category": "proof",
     "text": "Coq theorems about a token-level model of CUE expressions, for all trees and all token lists: the parser model returns exactly the tree whose parentheses the old printer (node.go) emits (parse (print e) = canon e, unparen (canon e) = unparen e), so no parenthesis can be dropped or misplaced; print . parse is idempotent and reaches its normal form in one step; the only tree change is the collapse of directly nested parentheses; on parser-produced trees the default printer (internal/pretty) prints the same tokens; a separated token sequence scans back to itself and layout-dependent blanks are never needed. The model is tied to /repo by exact agreement of scanner tokens, parser trees and formatter output tokens for both formatters on generated trees, token soups and character sequences. Formatting whole files (comments, layout, declarations, -s) is explored directly on the implementation: every embedded .cue source, its mutations and generated programs must format, be byte-identical when formatted again, and keep their position-free structural dump.",
-    "note": "Trusted: Coq kernel; hand-written models of scanner/parser/printers for expressions only; extraction and drivers. NOT modelled: whitespace/comment interleaving (printer.go), the internal/pretty layout engine, declarations, simplify.go - covered only by direct exploration of format.Source on the corpus, mutants and generated programs. Known deviations K1-K4 (formatter v1 glues `<` `-`; formatter v2 glues INT `.`; v2 on paren-free ASTs drops parentheses around unary operands of postfix operators and flattens right-nested | & chains) are modelled and reported as KNOWN-FINDING.",
+    "note": "Trusted: Coq kernel; hand-written models of scanner/parser/printers for expressions only; extraction and drivers. NOT modelled: whitespace/comment interleaving (printer.go), the internal/pretty layout engine, declarations, simplify.go - covered only by direct exploration of format.Source on the corpus, mutants and generated programs. Known deviations K1, K2, K25, K26 (formatter v1 glues `<` `-`; formatter v2 glues INT `.`; v2 on paren-free ASTs drops parentheses around unary operands of postfix operators and flattens right-nested | & chains) are modelled and reported as KNOWN-FINDING.",
     "technique": "Coq proof (precedence-climbing parser vs precedence printer; scanner separation) + extracted-model differential check + direct round-trip exploration on files",
 }
